@@ -14,4 +14,4 @@ N_QUICK, N_THOROUGH = 120, 3000
 
 def run(ctx, replay=None):
     return pc.run_property(ctx, "C05", pc.mon_c05, GEN, N_QUICK, N_THOROUGH, replay=replay, rule=RULE,
-                           assumptions=[pc.PFCP_NOTE], finding_sig=pc.sig_c05)
+                           assumptions=[pc.PFCP_NOTE], finding_sig=pc.sig_c05, directed=pc.directed_c05)
